@@ -44,10 +44,14 @@ class World:
         self.npvals = [rng.standard_normal(tuple(l["shape"])) for l in LEAVES]
         self.leaf_vals = [v.copy() for v in self.npvals]
         m = ns.nn.Module()
+        m.inner = ns.nn.Module()
+        m.inner.deep = ns.nn.Module()
+        m.seq = ns.nn.Sequential(ns.nn.Sequential(ns.nn.Module()))
+        hosts = [m, m.inner, m.inner.deep, m.seq.submodules()[0].submodules()[0], m.inner.deep]       # parameters live at several depths
         self.params = []
         for i, (l, v) in enumerate(zip(LEAVES, self.leaf_vals)):
             p = ns.nn.Parameter(ns.Tensor(v.copy(), requires_grad=l["req"]))
-            setattr(m, f"p{i}", p)
+            setattr(hosts[i % len(hosts)], f"p{i}", p)
             self.params.append(p)
         self.module = m
         self.opt = ns.optim.SGD([p for p, l in zip(self.params, LEAVES) if l["req"]], lr=0.1)
